@@ -24,7 +24,8 @@ CHECKS = {
             'positions x six proof request kinds over the wire must fold to the header\'s merkle root, '
             'every (h <= cp <= tip) header proof to the reference root, everything outside the chain '
             'refused.  B: proof requests in flight while blocks are undone, every choice vector with '
-            '<= 1/2 deviations: a reply is an error or verifies against a chain the daemon had; after '
+            '<= 1 deviation (thorough: plus the slices of the second level whose first deviation keeps back a '
+            'proof\'s own read; the full second level is not claimed): a reply is an error or verifies against a chain the daemon had; after '
             'quiescence all proofs verify again.  C: the mutating worker jobs of a reorganisation are '
             'sliced at their storage / file operations and proof requests are served at every slice '
             'point (also with the requests\' own reads torn by the mutation); same oracles.',
@@ -32,8 +33,8 @@ CHECKS = {
     'C10': ('exploration',
             'stateless schedule exploration with iterative deviation bounding of the full system + queries served at every slice point of sliced worker jobs, judged at quiescence',
             'The C07 scenario family with cache-populating queries before, during (also while blocks are '
-            'undone) and after the events; every choice vector with <= 1 (quick) / 2 (thorough) '
-            'deviations.  At quiescence get_history, get_mempool, get_balance, listunspent for every '
+            'undone) and after the events; every choice vector with <= 1 deviation (thorough: 2 on the '
+            'scenarios named in the evidence).  At quiescence get_history, get_mempool, get_balance, listunspent for every '
             'watched script and id_from_pos for the top heights, asked by the client that cached and by '
             'a fresh one, must equal the answer implied by the final chain and mempool.  Part B: the '
             'cache-populating queries served at every slice point of every advance_block / '
@@ -44,7 +45,7 @@ CHECKS = {
             'Seventeen scenarios (mempool entry then confirmation, quick blocks with churn, natural reorgs '
             'returning / reconfirming / dropping txs, forced reorgs, cache-pressure flush, subscribe / '
             'unsubscribe / query races, orphaned parent) with real client sessions over the wire and a '
-            'scheduled daemon; every choice vector with <= 1 (quick) / 2 (thorough) deviations (event or '
+            'scheduled daemon; every choice vector with <= 1 deviation, thorough: 2 on the scenarios named in the evidence (event or '
             'timer overtaking, younger first, hold/release, stall/arrive).  At quiescence every held '
             'status and header is judged against the protocol definition; real Notifications call '
             'sequences are checked against C20\'s environment automaton.  Part B: subscriptions (also by '
